@@ -219,6 +219,23 @@ class Cli:
                         else:
                             self.compare(os.path.join(d, "joined.pna"), "concat%d" % m, cmd + ["&&"] + ccmd)
             shutil.rmtree(d, ignore_errors=True)
+        # the same output directory used twice with --overwrite, the second time with a smaller limit: every part of
+        # the second run replaces a longer file of the first one and must still respect ITS limit
+        fitting = sorted(x for x in ms if x >= 52 and fits(chunks, x - 52) and x < size)
+        if len(fitting) >= 2 and fitting[-1] > fitting[0]:
+            m_hi, m_lo = fitting[-1], fitting[0]
+            d = os.path.join(self.box, "reuse")
+            rc1, out1 = self.sh(["split", "src.pna", "--max-size", str(m_hi), "--out-dir", "reuse", "--overwrite"])
+            cmd = ["split", "src.pna", "--max-size", str(m_lo), "--out-dir", "reuse", "--overwrite"]
+            rc, out = self.sh(cmd)
+            self.c.hist["cli split over older parts"] = self.c.hist.get("cli split over older parts", 0) + 1
+            if rc1 == 0 and rc == 0:
+                first, n = self.check_parts(d, "src", m_lo, ["split … --max-size %d --out-dir reuse --overwrite &&" % m_hi] + cmd)
+                if first:
+                    self.compare(first, "resplit%d" % m_lo, cmd)
+            elif rc1 == 0:
+                self.fail("pna split --max-size %d over the parts of an earlier run failed (rc=%d)" % (m_lo, rc), cmd, rc, out)
+            shutil.rmtree(d, ignore_errors=True)
         # create --split: the same writer fed by the entry builder.  Sizes clearly on either side.
         for m in (0, 51, 60, 52 + L + 40, size + 200):
             d = os.path.join(self.box, "cs%d" % m)
